@@ -1050,6 +1050,8 @@ fn feature_matrix(rep: &Report) {
         let cfgs = v["configurations"].as_array().cloned().unwrap_or_default();
         let mut digests = std::collections::BTreeSet::new();
         let mut built = 0u64;
+        let (mut featcheck_cfgs, mut featcheck_evals) = (0u64, 0u64);
+        s.require_classes(&["feature-only sweep ran (image::Pixel impls vs the image crate)"]);
         for c in &cfgs {
             let base = c["base"].as_str().unwrap_or("?");
             let feats: Vec<&str> = c["features"].as_array().map(|a| a.iter().filter_map(|x| x.as_str()).collect()).unwrap_or_default();
@@ -1069,10 +1071,21 @@ fn feature_matrix(rep: &Report) {
             if c["diff_count"].as_u64().unwrap_or(0) > 0 {
                 s.violation_w(&name, "behaviour-changed", json!({"configuration": name, "changed_observations": c["diff_count"], "first": c["diff"]}), feats.len() as u64);
             }
+            let fcf = c["featcheck_fail"].as_array().cloned().unwrap_or_default();
+            if !fcf.is_empty() {
+                s.violation_w(&name, "feature-item-misbehaves", json!({"configuration": name, "failed_sweeps": fcf}), feats.len() as u64);
+            }
+            if c["featcheck_expected"] == true {
+                s.class("feature-only sweep ran (image::Pixel impls vs the image crate)");
+                featcheck_cfgs += 1; featcheck_evals += c["featcheck_evaluations"].as_u64().unwrap_or(0);
+                if c["featchecks"].as_u64().unwrap_or(0) < 3 { s.rep.machinery_error(format!("{}: the digest program printed {} featcheck lines, at least 3 expected", name, c["featchecks"])); }
+            }
             if s.wants_sample() && feats.len() == 2 { s.sample(json!({"configuration": name, "build_s": c["build_s"], "digest_lines": c["n_lines"], "digest_sha": c["sha"]})); }
         }
         s.meta("configurations", json!(cfgs.len()));
         s.meta("built", json!(built));
+        s.meta("feature_only_sweeps", json!({"configurations_with_image_pixel_sweep": featcheck_cfgs, "pixel_method_comparisons": featcheck_evals,
+            "what": "under image + rgb/rgba the digest program compares every image::Pixel method of vek::Rgb/Rgba<u8|u16|f32> with image::Rgb/Rgba on all pixels of a 7/8/6-value channel alphabet (invert also against full - x with alpha kept, inverted_rgb, involution, after an in-place apply)"}));
         s.meta("distinct_digests_per_base", json!(digests.iter().collect::<Vec<_>>()));
         s.meta("toolchain", v["toolchain"].clone());
         s.meta("harness_az_build", v["harness_az_build"].clone());
